@@ -185,6 +185,10 @@ func (fr *frame) jump(to *ssa.BasicBlock) {
 			fr.backedges = map[int]int{}
 		}
 		fr.backedges[to.Index]++
+		if fr.backedges[to.Index] > fr.i.px.unwind && fr.i.px.unwindCut {
+			fr.i.px.note(fmt.Sprintf("loop cut at the declared bound of %d iterations in %s (longer executions are outside the bound)", fr.i.px.unwind, fr.fn))
+			panic(&pathEnd{kind: endPruned, msg: "loop cut at declared bound"})
+		}
 		if fr.backedges[to.Index] > fr.i.px.unwind {
 			panic(&pathEnd{kind: endUnwind, msg: fmt.Sprintf("loop unwinding bound %d exceeded in %s (block %d)%s", fr.i.px.unwind, fr.fn, to.Index, fr.i.loc(fr.fn.Pos()))})
 		}
@@ -511,13 +515,21 @@ func (fr *frame) makeSlice(instr *ssa.MakeSlice) value {
 			if esz > 0 {
 				maxn = (int64(1) << 47) / esz
 			}
+			if t.W < 64 && maxn > (int64(1)<<(t.W-1))-1 {
+				maxn = (int64(1) << (t.W - 1)) - 1 // the limit must be representable at the length's width
+			}
 			okc := smt.BAnd(smt.Cmp(smt.OpSle, smt.Const(t.W, 0), t), smt.Cmp(smt.OpSle, t, smt.Const(t.W, uint64(maxn))))
 			if !fr.decide(okc) {
 				panic(targetPanic{rtErr("runtime error: makeslice: " + what + " out of range")})
 			}
 			if fr.i.px.allocLimit > 0 {
 				// a symbolic length above the allocation budget is itself the violation
-				if fr.decide(smt.Cmp(smt.OpSlt, smt.Const(t.W, uint64(fr.i.px.allocLimit/max64(esz, 1))), t)) {
+				room := (fr.i.px.allocLimit - fr.i.allocs) / max64(esz, 1) // elements that still fit in the budget
+				if room < 0 {
+					room = 0
+				}
+				fits := t.W >= 64 || room <= (int64(1)<<(t.W-1))-1 // otherwise no value of this width exceeds it
+				if fits && fr.decide(smt.Cmp(smt.OpSlt, smt.Const(t.W, uint64(room)), t)) {
 					fr.i.allocs += fr.i.px.allocLimit + 1
 					fr.i.checkAlloc(fr)
 				}
